@@ -13,7 +13,7 @@ ID = 'C10'
 
 MANIFEST = {
     'engine': 'crosshair',
-    'text': 'Two parts. (1) CrossHair (symbolic execution with z3, symbolic strings) of the real compute_combined_features / combine_features source on a list-backed pandas stand-in with an injective stand-in for the 64-bit hash: the constituent cell values of two rows are symbolic strings; for every value assignment within the bound CrossHair must confirm over all paths that the interaction column is named by joining the constituent names with " AND ", that its two cells are equal if and only if the two rows agree on every constituent, that the original columns are untouched and that min(cap, C(m,k)) columns are produced. Counterexamples are replayed on the real build (real pandas, real xxhash). (2) The real function on REAL pandas frames with the real hash: two rows x three features, every cell chosen by the solver from an adversarial pool (empty string, values that are prefixes/suffixes of one another), label at every position, orders 2 and 3: equality pattern of every interaction column vs equality of the value tuples (covers library calls the list-backed stand-in does not model).',
+    'text': 'Three parts. (0) symx with z3 STRING variables: the real function runs on two rows whose constituent cells are symbolic strings of bounded length over the whole character set, and z3\'s string solver decides that equal interaction values imply equal value tuples and vice versa (order 2: cells <= 4 characters; order 3: <= 2). (1) CrossHair (symbolic execution with z3, symbolic strings) of the real compute_combined_features / combine_features source on a list-backed pandas stand-in with an injective stand-in for the 64-bit hash: the constituent cell values of two rows are symbolic strings; for every value assignment within the bound CrossHair must confirm over all paths that the interaction column is named by joining the constituent names with " AND ", that its two cells are equal if and only if the two rows agree on every constituent, that the original columns are untouched and that min(cap, C(m,k)) columns are produced. Counterexamples are replayed on the real build (real pandas, real xxhash). (2) The real function on REAL pandas frames with the real hash: two rows x three features, every cell chosen by the solver from an adversarial pool (empty string, values that are prefixes/suffixes of one another), label at every position, orders 2 and 3: equality pattern of every interaction column vs equality of the value tuples (covers library calls the list-backed stand-in does not model).',
     'note': 'Per condition <= 4 symbolic characters in total over alphabets of <= 4 letters (incl. empty strings, a digit, a space, a unicode letter); orders 2 and 3 (order 4 outside); 64-bit hash collisions are outside (injective stub, as the statement allows); "score equals the score of the explicit tuple" follows from value equality + C02 and is not separately encoded.',
     'technique': 'CrossHair symbolic execution of the real Python source (z3 string/sequence theory), per condition "Confirmed over all paths" or a replayed counterexample',
 }
@@ -41,6 +41,13 @@ def jobs(tier):
         for order in (2, 3):
             for c0 in range(len(RPOOL)):
                 out.append({'cond': 'real-frames', 'pins': {'lpos': lpos, 'order': order, 'c0': c0}, 'weight': 5, 'label': f'label@{lpos},order={order},c0={c0}'})
+    for order, ml in ((2, 4), (3, 2)):
+        out.append({'cond': 'z3-strings', 'order': order, 'maxlen': ml, 'pins': {}, 'weight': 50, 'label': f'order={order},cells<= {ml} chars'})
+    # four features, order 3: several candidates share their leading constituents in one call
+    for lpos in (0, 4):
+        for c0 in range(3):
+            for c1 in range(3):
+                out.append({'cond': 'real-frames-4', 'pins': {'lpos': lpos, 'order': 3, 'c0': c0, 'c1': c1}, 'weight': 8, 'label': f'4 features,label@{lpos},c0={c0},c1={c1}'})
     return out
 
 
@@ -80,22 +87,24 @@ def real_check(cols, rows, order, cap=100):
 def run_real(job):
     loader.record_functions('outrank/core_ranking.py', ['compute_combined_features', 'prior_combinations_sample'])
     st = {}
+    NF = 4 if job['cond'] == 'real-frames-4' else 3
+    POOL = RPOOL[:3] if NF == 4 else RPOOL
 
     def setup(ctx):
-        st['c'] = [z3.Int(f'c{i}') for i in range(6)]
+        st['c'] = [z3.Int(f'c{i}') for i in range(2 * NF)]
         for v in st['c']:
-            ctx.assume(v >= 0, v < len(RPOOL))
+            ctx.assume(v >= 0, v < len(POOL))
         st['lpos'], st['order'] = z3.Int('lpos'), z3.Int('order')
-        ctx.assume(st['lpos'] >= 0, st['lpos'] <= 3, st['order'] >= 2, st['order'] <= 3)
+        ctx.assume(st['lpos'] >= 0, st['lpos'] <= NF, st['order'] >= 2, st['order'] <= 3)
         for k, v in job['pins'].items():
             ctx.assume(z3.Int(k) == v)
 
     def body(ctx, out):
-        cells = [RPOOL[int(SInt(v, 0, len(RPOOL) - 1))] for v in st['c']]
-        lpos, order = int(SInt(st['lpos'], 0, 3)), int(SInt(st['order'], 2, 3))
-        cols = ['fa', 'fb', 'fc']
+        cells = [POOL[int(SInt(v, 0, len(POOL) - 1))] for v in st['c']]
+        lpos, order = int(SInt(st['lpos'], 0, NF)), int(SInt(st['order'], 2, 3))
+        cols = ['fa', 'fb', 'fc', 'fd'][:NF]
         cols.insert(lpos, 'label')
-        rows = [cells[:3], cells[3:]]
+        rows = [cells[:NF], cells[NF:]]
         for r, lab in zip(rows, ('0', '1')):
             r.insert(lpos, lab)
         w = {'cond': 'real-frames', 'fn': 'real-frames', 'cols': cols, 'rows': rows, 'order': order}
@@ -111,8 +120,53 @@ def run_real(job):
     return hutil.run_symx(job, setup, body)
 
 
+def run_z3strings(job):
+    """the real compute_combined_features on two rows whose constituent cells are z3 STRING variables of bounded length over the whole
+    character set: equal interaction values <=> equal value tuples, decided by z3's string solver"""
+    from harness import ch_common as CM
+    from vlib import chsupport, sympd
+    from vlib.symx import SStr
+    CR = CM.core_ranking()
+    order, L = job['order'], job['maxlen']
+    cols = ['fa', 'fb', 'fc'][:order]
+    st = {}
+
+    def setup(ctx):
+        st['v'] = [[z3.String(f'{c}{r}') for c in cols] for r in range(2)]
+        for row in st['v']:
+            for x in row:
+                ctx.assume(z3.Length(x) <= L)
+
+    def wit(m):
+        def sv(x):
+            r = m.eval(x, model_completion=True)
+            return r.as_string() if hasattr(r, 'as_string') else str(r)
+        rows = [[sv(x) for x in row] for row in st['v']]
+        return {'cond': 'z3-strings', 'fn': 'real-frames', 'cols': cols + ['label'], 'rows': [rows[0] + ['0'], rows[1] + ['1']], 'order': order}
+
+    def body(ctx, out):
+        CR['GLOBAL_PRIOR_COMB_COUNTS'].clear()
+        rows = [[SStr(x, L) for x in row] for row in st['v']]
+        df = sympd.DataFrame({c: [rows[0][i], rows[1][i]] for i, c in enumerate(cols)} | {'label': ['0', '1']})
+        args = types.SimpleNamespace(label_column='label', interaction_order=order, reference_model_JSON='', heuristic='MI-numba-randomized', combination_number_upper_bound=100)
+        res = CR['compute_combined_features'](df, args, chsupport.PB())
+        name = ' AND '.join(cols)
+        bad = [z3.BoolVal(name not in list(res.columns))]
+        if name in list(res.columns):
+            col = res[name].tolist()
+            same = z3.And([st['v'][0][i] == st['v'][1][i] for i in range(order)])
+            a, b = col[0], col[1]
+            eq = (a.e == b.e) if isinstance(a, SStr) and isinstance(b, SStr) else z3.BoolVal(a == b)
+            bad.append(z3.Xor(eq, same))
+        out.never(ctx, z3.Or(bad), wit, 'equal interaction values for different value tuples (or different values for equal tuples)')
+        out.sample({'order': order, 'max cell length': L, 'alphabet': 'all characters'})
+    return hutil.run_symx(job, setup, body, wit=wit)
+
+
 def run_job(job):
-    if job['cond'] == 'real-frames':
+    if job['cond'] == 'z3-strings':
+        return run_z3strings(job)
+    if job['cond'] in ('real-frames', 'real-frames-4'):
         return run_real(job)
     fname = job['cond'] + ('_twin' if job.get('twin') else '')
     r = chrun.run_condition('harness.ch_c10', fname, TIMEOUT[job['tier']], loader.REPO)
